@@ -547,14 +547,30 @@ def unarmour(text):
 def stage_container(ctx):
     rng = ctx.rng
     pk = _pk()
-    pool = key_pool(ctx)
+    import asyncssh
+    pool = list(key_pool(ctx))
+    # security keys need no hardware to be parsed: built with the harness's own container writer
+    edpub = [k for a, _, k in pool if a == 'ssh-ed25519'][0].public_data[-32:]
+    ecpub = [k for a, _, k in pool if a == 'ecdsa-sha2-nistp256'][0].public_data[-65:]
+    for skalg, pubv in ((G.SK_ED, edpub), (G.SK_EC, ecpub)):
+        for flags, app, handle, reserved in ((0x01, b'ssh:', b'\x11' * 48, b''), (0x25, 'ssh:übung'.encode(), b'', b'\x00\x01'),
+                                             (0xff, b'', bytes(range(200)), b'r'), (0x00, b'ssh:x', b'h', b'')):
+            rec, pubb = G.sk_record(skalg, pubv, app, flags, handle, reserved)
+            try:
+                pool.append((skalg.decode(), {'flags': flags, 'rec': rec}, asyncssh.import_private_key(G.armour_openssh(G.openssh_container(rec, pubb)))))
+            except Exception as e:             # noqa
+                ctx.broke('stage_container:sk_import', f'{skalg.decode()} flags {flags:#x}: {type(e).__name__}: {e}')
+    layouts = dict(G.SK_LAYOUTS)
     table = {}
     for alg, kw, key in pool:
-        f = parse_strings(key.private_data)
-        table[f[0]] = len(f) - 1
-    ctable = clist(sorted(table.items()), lambda kv: '(%s, %d)' % (zl(kv[0]), kv[1]))
-    tdef = '\nDefinition ktable : list (bytes * Z) := %s.' % ctable
-    ctx.cov['oracle']['openssh_private_field_counts'] = {k.decode(): v for k, v in sorted(table.items())}
+        a, f, _ = G.parse_record(key.private_data, layouts)
+        table[a] = layouts.get(a, [True] * len(f))
+    ctable = clist(sorted(table.items()), lambda kv: '(%s, %s)' % (zl(kv[0]), clist(kv[1], cbool)))
+    tdef = '\nDefinition ktable : list (bytes * list bool) := %s.' % ctable
+    ctx.cov['oracle']['openssh_private_record_layouts'] = {k.decode(): ''.join('S' if x else 'B' for x in v) for k, v in sorted(table.items())}
+
+    def cfield(x):
+        return 'FByte %d' % x if isinstance(x, int) else 'FStr %s' % zl(x)
     if getattr(pk, '_bcrypt_available', False):
         ctx.cov['oracle']['container_note'] = 'bcrypt available: encrypted-container cases skipped by the correspondence'
     comments = [b'', b'c', b'user@host', b'a\nb', b'\x00', b'\xff\xfe binary \x00\x01', b' lead and trail ', b'x' * 255, b'y' * 300,
@@ -562,8 +578,8 @@ def stage_container(ctx):
     enc_cases, dec_cases, file_cases = [], [], []
     T = _thorough(ctx)
     for alg, kw, key in pool:
-        fields = parse_strings(key.private_data)
-        kp = '(%s, %s)' % (zl(fields[0]), clist(fields[1:], zl))
+        ralg, rfields, _ = G.parse_record(key.private_data, layouts)
+        kp = '(%s, %s)' % (zl(ralg), clist(rfields, cfield))
         cms = comments + [bytes(rng.getrandbits(8) for _ in range(rng.randint(1, 40))) for _ in range(6 if T else 2)]
         for cm in cms:
             key.set_comment(cm)
@@ -585,8 +601,12 @@ def stage_container(ctx):
                 with tempfile.TemporaryDirectory(prefix='c15c-', dir='/var/tmp') as td:
                     path = os.path.join(td, 'id_key_file')
                     key.set_comment(cm)
-                    key.write_private_key(path, ffmt)
-                    key.set_comment(None)
+                    try:
+                        key.write_private_key(path, ffmt)
+                    except pk.KeyExportError:
+                        continue
+                    finally:
+                        key.set_comment(None)
                     k2 = pk.read_private_key(path)
                     if ffmt != 'openssh' and cm is not None:
                         k2.set_comment(cm)
@@ -598,7 +618,7 @@ def stage_container(ctx):
                 i += 4 + int.from_bytes(cont[i:i + 4], 'big')
                 file_cases.append('(%s, %s, %s, %s, %s)' % (zl(cont[i + 4:i + 8]), kp, copt(cm, zl), zl(key.public_data), zl(cont)))
                 ctx.note_case(('container-encode-file', alg, repr(kw), cm, ffmt), nontrivial=True)
-        priv = key.private_data
+        priv = kw.get('rec', key.private_data)        # security keys: the record as the harness wrote it
         pubd = key.public_data
         variants = [dict(comment=cm) for cm in cms[:6]]
         variants += [
@@ -643,7 +663,7 @@ def stage_container(ctx):
     _corr(ctx, 'openssh_encode', 'chk_openssh_encode', enc_cases, 'bytes * kparams * bytes * bytes * bytes', shard=60)
     _corr(ctx, 'openssh_export_file_key', 'chk_openssh_export_key', file_cases, 'bytes * kparams * option bytes * bytes * bytes', shard=20)
     _corr(ctx, 'openssh_decode', 'chk_openssh_decode', dec_cases,
-          'list (bytes * Z) * bytes * option bytes * ores (bytes * bytes)', shard=100, defs=tdef)
+          'list (bytes * list bool) * bytes * option bytes * ores (bytes * bytes)', shard=100, defs=tdef)
     d = ctx.cov['distribution']
     for need in ('container.decode.ok', 'container.decode.KeyImportError', 'container.decode.KeyEncryptionError'):
         if not d.get(need):
@@ -813,6 +833,10 @@ def _group(rp):
     k = rp.get('kind', '?')
     if k in ('der_deep_nesting', 'der_recursion'):
         return 'der_deep_nesting'
+    if k == 'security_key':
+        return 'security_key ' + str(rp.get('alg'))
+    if k == 'container_writer':
+        return 'container_writer ' + str(rp.get('writer'))
     if k == 'optional_fields':
         v = rp.get('variant', '')
         return 'optional_fields ' + ('pbes2 keyLength' if 'keyLength=present' in v else 'pbes2' if v.startswith('pbes2') else
@@ -1004,6 +1028,26 @@ def replay(rp):
         except Exception:                      # noqa
             return 0
         return 0
+    if kind == 'security_key':
+        try:
+            text = bytes.fromhex(rp['data'])
+            want = G.read_openssh_container(text, G.SK_LAYOUTS)
+            got = G.read_openssh_container(asyncssh.import_private_key(text).export_private_key('openssh'), G.SK_LAYOUTS)
+            bad = [f for f in ('alg', 'fields', 'comment', 'pub') if got[f] != want[f]]
+            print('fields that differ after import -> export:', bad, got['fields'] if bad else '')
+            return 1 if bad else 0
+        except Exception as e:                 # noqa
+            print('still fails:', type(e).__name__, e)
+            return 1
+    if kind == 'container_writer':
+        try:
+            k2 = asyncssh.import_private_key(bytes.fromhex(rp['data']))
+            same = (k2.get_comment_bytes() or b'') == (rp.get('comment') or '').encode('latin-1')
+            print('imports; comment', 'as written' if same else 'differs')
+            return 0 if same else 1
+        except Exception as e:                 # noqa
+            print('still fails:', type(e).__name__, e)
+            return 1
     if 'alg' not in rp and kind not in ('private_list', 'public_list'):
         print('replay of kind', kind, 'not supported')
         return 2
